@@ -1,0 +1,24 @@
+//go:build verif
+
+package bridgesync
+
+import (
+	"github.com/0xPolygon/cdk-contracts-tooling/contracts/pp/l2-sovereign-chain/polygonzkevmbridgev2"
+	"github.com/agglayer/aggkit/log"
+	"github.com/agglayer/aggkit/sync"
+	aggkittypes "github.com/agglayer/aggkit/types"
+	"github.com/ethereum/go-ethereum/common"
+)
+
+// Verification hook (build tag verif): the bridge syncer's log appenders (event signature -> handler), built by the
+// real buildAppender exactly as newBridgeSync builds them. No logic lives here.
+
+// VerifBuildAppender is buildAppender with the V2 binding created on the given client.
+func VerifBuildAppender(client aggkittypes.EthClienter, bridgeAddr common.Address, syncFullClaims bool,
+) (sync.LogAppenderMap, error) {
+	bridgeContractV2, err := polygonzkevmbridgev2.NewPolygonzkevmbridgev2(bridgeAddr, client)
+	if err != nil {
+		return nil, err
+	}
+	return buildAppender(client, bridgeAddr, syncFullClaims, bridgeContractV2, log.WithFields("module", "verif-claimcall"))
+}
